@@ -211,6 +211,23 @@ def search(ctx, boost=1, focus=()):
         nl = int(rng.integers(1, 9))
         template = rng.integers(-9, 10, (th, tw)).astype(np.float64 if k % 2 else np.int64)
         template[template == 0] = 5
+        if k % 4 == 1:
+            # templates with empty parts: zero rows / columns on some sides only (the non-zero support sits in a corner or along
+            # an edge), scattered zeros, a single non-zero pixel anywhere
+            mode = (k // 4) % 4
+            if mode == 0:
+                template[:int(rng.integers(1, th + 1)) - 1 if th > 1 else 0, :] = 0
+                template[:, :int(rng.integers(1, tw + 1)) - 1 if tw > 1 else 0] = 0
+            elif mode == 1:
+                template[rng.random((th, tw)) < 0.6] = 0
+            elif mode == 2:
+                keep_ = template[int(rng.integers(th)), int(rng.integers(tw))]
+                template[:] = 0
+                template[int(rng.integers(th)), int(rng.integers(tw))] = keep_
+            else:
+                template[th - int(rng.integers(0, th)):, :] = 0
+                template[:, tw - int(rng.integers(0, tw)):] = 0
+            ctx.count("template_with_empty_parts")
         offs = [[int(rng.integers(-th - 2, sy + 3)), int(rng.integers(-tw - 2, sx + 3))] for _ in range(nl)]
         p = {"template": template, "sy": sy, "sx": sx, "offsets": offs}
         if k % 3 == 0:
